@@ -406,9 +406,11 @@ func runScenario(sc *scenario, tr *hx.Trace) int {
 		done := make(chan error, 1)
 		go func() { done <- ro.Send(ctx, hx.NewChanReader(feed, true, runID, sp.Offset, -1)) }()
 		// the sender sleeps 1 s between its (at most 3) attempts of a redirected batch
+		// (8 s without any further execution at the cluster, not 8 s in all: a loaded machine must not look like a stalled replay)
 		deadline := time.Now().Add(8 * time.Second)
 		var sendErr error
 		ended := false
+		lastN := -1
 		for time.Now().Before(deadline) {
 			select {
 			case sendErr = <-done:
@@ -417,6 +419,10 @@ func runScenario(sc *scenario, tr *hx.Trace) int {
 			}
 			if ended || complete() {
 				break
+			}
+			if n := int(cs.ESeq.Load()); n != lastN {
+				lastN = n
+				deadline = time.Now().Add(8 * time.Second)
 			}
 			time.Sleep(500 * time.Microsecond)
 		}
